@@ -154,4 +154,40 @@ def expectedConns (configured : Option Nat) (conns : List (List (Option Nat × O
     List (List Expect) :=
   conns.map (expectedEach configured)
 
+/-! ### A second reading of the header value that shares no number reader with the model
+
+`denote` above uses `digitsVal` and `Ascii.isDigit` (Basic/Bytes.lean), which the model's
+`parseValue` uses too, so in `tryParse = denote` the value part is compared with itself (Lean review
+round 4, lr5-6).  `denotePositional` reads the digits by a table and weighs them by powers of ten —
+"{positive integer as ASCII string of at most 8 digits}" as school arithmetic — and mentions neither
+`digitsVal` nor `Ascii.isDigit`. -/
+
+/-- The value of one ASCII digit, by table; `none` for every other byte. -/
+def digitOf (b : UInt8) : Option Nat :=
+  if b.toNat = 48 then some 0 else if b.toNat = 49 then some 1 else if b.toNat = 50 then some 2
+  else if b.toNat = 51 then some 3 else if b.toNat = 52 then some 4 else if b.toNat = 53 then some 5
+  else if b.toNat = 54 then some 6 else if b.toNat = 55 then some 7 else if b.toNat = 56 then some 8
+  else if b.toNat = 57 then some 9 else none
+
+/-- A digit string read most significant digit first: `Σ dᵢ · 10^(n-1-i)`; `none` if some byte is
+not a digit. -/
+def positional : Bytes → Option Nat
+  | [] => some 0
+  | b :: bs =>
+    match digitOf b, positional bs with
+    | some d, some r => some (d * 10 ^ bs.length + r)
+    | _, _ => none
+
+/-- The duration (ns) a spec-conformant header value denotes, read positionally. -/
+def denotePositional (v : Bytes) : Option Nat :=
+  match v.getLast? with
+  | none => none
+  | some ub =>
+    let ds := v.dropLast
+    if 1 ≤ ds.length ∧ ds.length ≤ 8 then
+      match positional ds, unitNanos ub with
+      | some x, some k => some (x * k)
+      | _, _ => none
+    else none
+
 end Spec.Timeout
